@@ -327,3 +327,12 @@ pub fn deflate_finish_once_ex(data: &[u8], level: i32, strategy: i32, out_cap: u
     unsafe { mz_deflateEnd(&mut s) };
     Ok((rc, t, written, bound_s))
 }
+
+// exported (no_mangle) by the shim but not re-exported as Rust paths: reached the way a C caller does
+#[allow(improper_ctypes)]
+extern "C" {
+    pub fn tinfl_decompressor_alloc() -> *mut tinfl_decompressor;
+    pub fn tinfl_decompressor_free(c: *mut tinfl_decompressor);
+    pub fn tinfl_init(c: *mut tinfl_decompressor);
+    pub fn tinfl_get_adler32(c: *mut tinfl_decompressor) -> c_int;
+}
